@@ -217,6 +217,10 @@ impl Codec {
     fn encode_item(&self, item: Encoded, dst: &mut BytePages) -> Result<(), EncodeError> {
         match item {
             Encoded::Packet(pkt) => {
+                // publish payload is expected, other packets cannot be interleaved
+                if self.encoding_payload.get().is_some() {
+                    return Err(EncodeError::ExpectPayload);
+                }
                 let content_size = encode::get_encoded_size(&pkt);
                 encode::encode(&pkt, dst, content_size as u32)?;
                 Ok(())
